@@ -34,6 +34,49 @@ type concCase struct {
 	// Seq, when present, makes the case a plain SEQUENTIAL execution: one goroutine performs the threads' calls in this
 	// order (thread index per call).  Used as the replay of a reference run that did not return.
 	Seq []int `json:"sequential_order,omitempty"`
+	// Vol, when present: the correlator's tables are filled first (volume family: that many logins waiting, that many
+	// login-less sessions open), by one goroutine, before any thread starts
+	Vol *VolPrelude `json:"volume_prelude,omitempty"`
+}
+
+// VolPrelude: what the correlator already holds when a concurrent program starts (pids and session ids from 100000 on,
+// login / event ids from 1000 on: disjoint from every program's).
+type VolPrelude struct {
+	Parked   int `json:"parked_logins"`
+	Sessions int `json:"open_sessions"`
+	HeldEach int `json:"held_per_open_session"`
+}
+
+func (v *VolPrelude) String() string {
+	if v == nil {
+		return "empty correlator"
+	}
+	return fmt.Sprintf("correlator already holding %d waiting logins and %d login-less sessions (%d events each)", v.Parked, v.Sessions, v.HeldEach+1)
+}
+
+func (v *VolPrelude) ops() []HOp {
+	if v == nil {
+		return nil
+	}
+	g := &genState{nextEv: 1000, nextLog: 1000}
+	var ops []HOp
+	n := v.Parked
+	if v.Sessions > n {
+		n = v.Sessions
+	}
+	for k := 0; k < n; k++ {
+		if k < v.Parked {
+			ops = append(ops, g.login(100000+k, ""))
+		}
+		if k < v.Sessions {
+			sid, pid := strconv.Itoa(100000+k), 200000+k
+			ops = append(ops, g.ev(sid, "LOGIN", strconv.Itoa(pid)))
+			for j := 0; j < v.HeldEach; j++ {
+				ops = append(ops, g.ev(sid, otherTypes[(k+j)%len(otherTypes)], strconv.Itoa(pid+1000)))
+			}
+		}
+	}
+	return ops
 }
 
 // concBound: how long a concurrent case may take after the last intended pause before it counts as stuck
@@ -46,6 +89,7 @@ type seqRunCtx struct {
 	threads [][]HOp
 	order   []int
 	debug   bool
+	vol     *VolPrelude
 }
 
 func describeSeqHang(ctx any, call int, waited time.Duration) (concCase, string) {
@@ -53,9 +97,13 @@ func describeSeqHang(ctx any, call int, waited time.Duration) (concCase, string)
 	if x == nil {
 		return concCase{}, fmt.Sprintf("deadlock: a correlator call did not return within %v", waited.Round(time.Second))
 	}
-	cc := concCase{Threads: x.threads, Seq: x.order, Debug: x.debug}
-	return cc, fmt.Sprintf("deadlock: call did not return within %v: call %d of the SEQUENTIAL execution %v (thread index per call) of %s; log level %s",
-		waited.Round(time.Second), call, x.order, opsString(x.threads), logLevelOf(x.debug))
+	cc := concCase{Threads: x.threads, Seq: x.order, Debug: x.debug, Vol: x.vol}
+	which := fmt.Sprintf("call %d", call)
+	if call < 0 {
+		which = "a call of the filling phase (before the program's first call)"
+	}
+	return cc, fmt.Sprintf("deadlock: call did not return within %v: %s of the SEQUENTIAL execution %v (thread index per call) of %s, %s; log level %s",
+		waited.Round(time.Second), which, x.order, opsString(x.threads), x.vol.String(), logLevelOf(x.debug))
 }
 
 type concOutcome struct {
@@ -63,6 +111,7 @@ type concOutcome struct {
 	Sessions   map[string]string   `json:"sessions"`            // session -> "login|held ids"
 	Parked     map[string]int      `json:"parked"`
 	Results    string              `json:"results"`
+	Untouched  string              `json:"untouched_since_filling,omitempty"` // sessions/waiting logins exactly as the filling phase left them (counted)
 }
 
 func (o concOutcome) key() string {
@@ -74,6 +123,24 @@ type concRunner struct {
 	r      *runner
 	mu     sync.Mutex
 	bounds []time.Time
+	// state right after the filling phase (entries still in that state are counted, not listed, in the outcome)
+	preSess   map[string]string
+	preParked map[string]int
+}
+
+// fill: the volume prelude, by the calling goroutine
+func (c *concRunner) fill(v *VolPrelude) error {
+	if v == nil {
+		return nil
+	}
+	for _, o := range v.ops() {
+		if r := c.do(o); r != "ok" {
+			return fmt.Errorf("filling phase: %s returned %s", o.String(), r)
+		}
+	}
+	o, err := c.outcome(nil)
+	c.preSess, c.preParked = o.Sessions, o.Parked
+	return err
 }
 
 func newConcRunner(threads [][]HOp, debug ...bool) *concRunner {
@@ -141,6 +208,22 @@ func (c *concRunner) outcome(results [][]string) (concOutcome, error) {
 	for pid, l := range pk {
 		out.Parked[strconv.Itoa(pid)] = c.r.logins[l.Source]
 	}
+	if c.preSess != nil {
+		ns, np := 0, 0
+		for id, v := range c.preSess {
+			if out.Sessions[id] == v {
+				delete(out.Sessions, id)
+				ns++
+			}
+		}
+		for pid, l := range c.preParked {
+			if got, ok := out.Parked[pid]; ok && got == l {
+				delete(out.Parked, pid)
+				np++
+			}
+		}
+		out.Untouched = fmt.Sprintf("%d sessions, %d waiting logins", ns, np)
+	}
 	var rs []string
 	for _, r := range results {
 		rs = append(rs, strings.Join(r, ","))
@@ -192,7 +275,7 @@ func respectsChain(il []int, chain []int, lens []int) bool {
 // which the threads [pre] ran to completion, one after the other in that order, BEFORE any other thread started
 // (real-time order: their calls precede everything else), the remaining threads interleaved arbitrarily (each in
 // program order, a continuation thread after its first part).
-func sequentialOutcomes(threads [][]HOp, chain []int, pre ...int) (map[string]bool, error) {
+func sequentialOutcomes(vol *VolPrelude, threads [][]HOp, chain []int, pre ...int) (map[string]bool, error) {
 	lens := make([]int, len(threads))
 	isPre := map[int]bool{}
 	for i, t := range threads {
@@ -220,7 +303,13 @@ func sequentialOutcomes(threads [][]HOp, chain []int, pre ...int) (map[string]bo
 		c := newConcRunner(threads)
 		idx := make([]int, len(threads))
 		results := make([][]string, len(threads))
-		concSeqWatchdog.Context(&seqRunCtx{threads: threads, order: il})
+		concSeqWatchdog.Context(&seqRunCtx{threads: threads, order: il, vol: vol})
+		concSeqWatchdog.Enter(-1, &phaseCall)
+		ferr := c.fill(vol)
+		concSeqWatchdog.Leave()
+		if ferr != nil {
+			return nil, ferr
+		}
 		for k, t := range il {
 			concSeqWatchdog.Enter(k, &phaseCall)
 			r := c.do(threads[t][idx[t]])
@@ -256,7 +345,6 @@ func runConc(cc concCase) (concResult, error) {
 	ctl.Name(sm, "sessions")
 	ctl.Name(pm, "parked")
 	ctl.Name(c.r.enc, "writer")
-	common.VerifHook = ctl.Hook
 	defer func() { common.VerifHook = nil }()
 	results := make([][]string, len(cc.Threads))
 	// per thread: 1 + index of the call in flight, 0 = not started, -1 = finished (read by the watchdog below)
@@ -273,7 +361,16 @@ func runConc(cc concCase) (concResult, error) {
 	// correlator's mutex); everything else is in-memory work.  A case that has not completed a generous bound after
 	// that is stuck: some call does not return.
 	var res concResult
+	var fillErr error
+	filling := atomic.Bool{}
 	body := func() {
+		filling.Store(true)
+		fillErr = c.fill(cc.Vol) // no schedule points while the tables are filled (one goroutine)
+		filling.Store(false)
+		if fillErr != nil {
+			return
+		}
+		common.VerifHook = ctl.Hook
 		if len(cc.Seq) > 0 {
 			idx := make([]int, len(cc.Threads))
 			for _, t := range cc.Seq {
@@ -348,6 +445,9 @@ func runConc(cc concCase) (concResult, error) {
 	case <-time.After(bound):
 		// nothing written by the case's goroutines is read here (they are still running): only the atomics
 		var stuck []string
+		if filling.Load() {
+			stuck = append(stuck, "the filling phase ("+cc.Vol.String()+")")
+		}
 		for t := range cc.Threads {
 			if k := inCall[t].Load(); k > 0 && int(k) <= len(cc.Threads[t]) {
 				stuck = append(stuck, fmt.Sprintf("T%d in its call %d, %s", t, k-1, cc.Threads[t][k-1].String()))
@@ -367,6 +467,9 @@ func runConc(cc concCase) (concResult, error) {
 		res.Trace = append(res.Trace, e.Obj+"."+e.Op)
 	}
 	common.VerifHook = nil
+	if fillErr != nil {
+		return res, fillErr
+	}
 	o, err := c.outcome(results)
 	res.Outcome = o
 	return res, err
@@ -375,7 +478,10 @@ func runConc(cc concCase) (concResult, error) {
 // describeConc: the schedule in words
 func describeConc(cc concCase) string {
 	if len(cc.Seq) > 0 {
-		return fmt.Sprintf("%s - executed sequentially in the order %v (thread index per call)", opsString(cc.Threads), cc.Seq)
+		return fmt.Sprintf("%s - %s, executed sequentially in the order %v (thread index per call)", opsString(cc.Threads), cc.Vol.String(), cc.Seq)
+	}
+	if cc.Vol != nil {
+		return fmt.Sprintf("%s - %s, then T%v run first, then victim T%d is paused before its hook %d while T%v run, then resumed", opsString(cc.Threads), cc.Vol.String(), cc.Pre, cc.Victim, cc.K, cc.Order)
 	}
 	return fmt.Sprintf("%s - T%v run first, then victim T%d is paused before its hook %d while T%v run, then resumed", opsString(cc.Threads), cc.Pre, cc.Victim, cc.K, cc.Order)
 }
@@ -608,7 +714,13 @@ func concKeyWanted(prop, key string) bool {
 
 func inflightPath(out string) string { return out + "/inflight.json" }
 
-func concMain(out string, n int, seed uint64, prop string) {
+var concVolSizes = []int{255, 256, 257, 1000, 1023, 1024, 1025, 2047, 2048, 2049}
+
+func concMain(out string, n int, seed uint64, prop string, nVol int, volBig bool) {
+	if volBig {
+		// every schedule of a program fills the tables anew (under the race detector): sizes stay moderate
+		concVolSizes = append(concVolSizes, 4096, 4097)
+	}
 	r := hutil.NewRand(seed ^ 0xC03)
 	sum := hutil.NewSummary(prop, seed,
 		"small concurrent programs (login || LOGIN record + follow-up events || later events of the same session, events of another session, or cleanup), 2-3 threads, <= 8 calls; "+
@@ -632,11 +744,34 @@ func concMain(out string, n int, seed uint64, prop string) {
 		stopAfterHang(what, cc)
 	})
 	progs := 0
-	for progs < n {
+	// the last nVol programs start on a correlator whose tables are already large (volume family): the first of them
+	// with the largest size, the others drawn from sizes around powers of two and ten
+	vr := hutil.NewRand(seed ^ 0xC03 ^ hashStr("family:volume"))
+	for progs < n+nVol {
 		threads, chain := genConcPrograms(r)
 		progs++
+		var vol *VolPrelude
+		if progs > n {
+			sizes := concVolSizes
+			sz := sizes[len(sizes)-1]
+			if progs > n+1 {
+				sz = hutil.Pick(vr, sizes)
+			}
+			vol = &VolPrelude{}
+			switch k := (progs - n - 1) % 3; k {
+			case 0:
+				vol.Parked = sz
+			case 1:
+				vol.Sessions, vol.HeldEach = sz, vr.Intn(3)
+			default:
+				vol.Parked, vol.Sessions = sz, hutil.Pick(vr, sizes)
+			}
+			sum.Dist("programs_on_a_filled_correlator")
+			sum.Dist(fmt.Sprintf("filled_waiting_logins_%s", magnitude(vol.Parked)))
+			sum.Dist(fmt.Sprintf("filled_open_sessions_%s", magnitude(vol.Sessions)))
+		}
 		decorateThreads(hutil.NewRand(seed^0xC03F1E1D^uint64(progs)*0x9E3779B97F4A7C15), threads)
-		seqSet, err := sequentialOutcomes(threads, chain)
+		seqSet, err := sequentialOutcomes(vol, threads, chain)
 		if err != nil {
 			sum.Fail("harness", "cannot interpret sequential run: "+err.Error(), threads)
 			continue
@@ -647,7 +782,7 @@ func concMain(out string, n int, seed uint64, prop string) {
 			if m, ok := seqCache[k]; ok {
 				return m
 			}
-			m, err := sequentialOutcomes(threads, chain, pre...)
+			m, err := sequentialOutcomes(vol, threads, chain, pre...)
 			if err != nil {
 				m = seqSet
 			}
@@ -695,7 +830,7 @@ func concMain(out string, n int, seed uint64, prop string) {
 						}
 					}
 					for k := 0; k < 12; k++ {
-						cc := concCase{Threads: threads, Pre: pre, Victim: victim, K: k, Order: ord, Chain: chain, Debug: progs%3 == 0}
+						cc := concCase{Threads: threads, Pre: pre, Victim: victim, K: k, Order: ord, Chain: chain, Debug: progs%3 == 0, Vol: vol}
 						if b, err := json.Marshal(map[string]any{"conc": cc}); err == nil {
 							_ = os.WriteFile(inflightPath(out), b, 0o644)
 						}
@@ -875,7 +1010,7 @@ func replayConc(cc concCase, prop string) int {
 		fmt.Println("not reproduced")
 		return 0
 	}
-	seqSet, err := sequentialOutcomes(cc.Threads, cc.Chain, cc.Pre...)
+	seqSet, err := sequentialOutcomes(cc.Vol, cc.Threads, cc.Chain, cc.Pre...)
 	if err != nil {
 		fmt.Println("harness error:", err)
 		return 2
